@@ -169,7 +169,7 @@ func (o *c06Oracles) render(f *ir.File, accepted func(string) bool, funcs []stri
 		if s, ok := e.Value.(string); ok {
 			switch e.Op {
 			case ir.FilterGoVersionEqOp, ir.FilterGoVersionLessThanOp, ir.FilterGoVersionGreaterThanOp, ir.FilterGoVersionLessEqThanOp, ir.FilterGoVersionGreaterEqThanOp:
-				if _, err := ruleguard.ParseGoVersion(s); err == nil && once("gv", s) {
+				if c06VersionOK(s) && once("gv", s) {
 					gover = append(gover, hx.HexS(s))
 				}
 			case ir.FilterFilePkgPathMatchesOp, ir.FilterFileNameMatchesOp:
@@ -832,4 +832,16 @@ func r(m dsl.Matcher) { m.Match("f($x)").Report("x") }`,
 }`,
 	`func r(m dsl.Matcher) { m.Match("f($x)", "g($y)").Where(m["x"].Pure).Report("x") }`,
 	`func r(m dsl.Matcher) { m.Match("g($y)", "f($x)").Where(m["x"].Text != "a").At(m["x"]).Report("x") }`,
+}
+
+// c06VersionOK asks the real parser whether a version string is well-formed; a panic inside it is the loader's
+// problem to exhibit (the front stream feeds the same strings to Load), not a reason for the oracle to stop.
+func c06VersionOK(s string) (ok bool) {
+	defer func() {
+		if recover() != nil {
+			ok = false
+		}
+	}()
+	_, err := ruleguard.ParseGoVersion(s)
+	return err == nil
 }
